@@ -14,9 +14,9 @@ def run(rep, tier, seed, replay):
                         "the Go scheduler's interleavings are sampled; C01_in_order quantifies over every schedule of the model"]
     pr = vlib.prove(rep, PROP)
     vlib.prepare_runners()
-    found = check_program(rep, PROP, "c01", tier, seed, replay, 200, 5000, "Pipelined and concurrent connections with slow nodes vs the model (replies in order, one each)")
+    found = check_program(rep, PROP, "c01", tier, seed, replay, 200, 2500, "Pipelined and concurrent connections with slow nodes vs the model (replies in order, one each)")
     # framing only: one reply per request whatever the request contains (every command name, CR LF and reply look-alikes in every argument)
-    res = differential(rep, PROP, "c01frame", seed + 5, 150 if tier == "quick" else 20000, tier, model_modes=[])
+    res = differential(rep, PROP, "c01frame", seed + 5, 150 if tier == "quick" else 6000, tier, model_modes=[])
     cases, impl = res["cases"], res["impl"]
     bad = [i for i in range(len(cases)) if impl[i] != "replies=%d" % (int(cases[i].split()[0]) + 1)]
     add_corr(rep, "One reply per request for every command name with hostile arguments (replies counted up to a sentinel)", res, bad, len(set(cases)))
